@@ -125,6 +125,8 @@ pub struct E1Hook {
     pub wall: Mutex<Option<(u64, tokio::time::Instant, i64)>>,
     pub log_events: bool,
     pub on_event: Mutex<Option<Box<dyn Fn(&str, &str) + Send + Sync>>>,
+    /// called when the subject reaches a schedule point and is about to yield there
+    pub on_yield: Mutex<Option<Box<dyn Fn(&str) + Send + Sync>>>,
     /// last value handed out for `pkarr.timestamp.now` (per-run monotonic clock)
     last_ts: Mutex<u64>,
     next_conn_id: Mutex<u64>,
@@ -148,6 +150,7 @@ impl E1Hook {
             wall: Mutex::new(None),
             log_events: true,
             on_event: Mutex::new(None),
+            on_yield: Mutex::new(None),
             last_ts: Mutex::new(0),
             next_conn_id: Mutex::new(0),
         });
@@ -164,6 +167,9 @@ impl Hook for E1Hook {
                 if n > 0 {
                     self.ctx.count("probe.apoint_yielded");
                     self.ctx.count("fault.schedule_point_yield");
+                    if let Some(f) = self.on_yield.lock().unwrap().as_ref() {
+                        f(site);
+                    }
                 }
                 n
             }
